@@ -1,8 +1,173 @@
-/- line-protocol handlers for C04 (stub: not built yet) -/
+/- line-protocol handlers for C04 (hand-written backward passes) -/
 import Driver.Loop
+import NumqiModel.Backward
 
 namespace Numqi.Driver.C04
+open Numqi Numqi.Backward
 
-def handle (_args : List String) : String := "bad-op"
+def arr? (s : String) : Option (Array GInt) :=
+  if s = "-" || s = "" then some #[] else (parseGIntList? s).map List.toArray
+
+def strArr (a : Array GInt) : String := gintListStr a.toList
+
+/-- exact division in ℚ[i] (only the driver needs it: the Sylvester rule divides by `s_a + s_b`) -/
+instance : Div QI := ⟨fun a b =>
+  let d := QI.normSq b
+  ⟨(a.re * b.re + a.im * b.im) / d, (a.im * b.re - a.re * b.im) / d⟩⟩
+
+/-- one gate of a sweep program: `u:<t>:F:<U>`, `u:<t>:P:<slot>`, `c:<c>:<t>:F:<U>`, `c:<c>:<t>:P:<slot>` -/
+def parseGate (n : Nat) (s : String) : Option (PGate n GInt) :=
+  let mk (raw : RawOp GInt) (slot : Option Nat) : Option (PGate n GInt) :=
+    match raw.compile n with
+    | some (.unitary U t) => some (.unitary (match slot with | some sl => .param sl | none => .fixed U) t)
+    | some (.control U c r tn) => some (.control (match slot with | some sl => .param sl | none => .fixed U) c r tn)
+    | _ => none
+  match s.splitOn ":" with
+  | ["u", t, "F", u] => do
+      let t ← parseIntList? t; let u ← arr? u
+      mk (.unitary u t) none
+  | ["u", t, "P", sl] => do
+      let t ← parseIntList? t; let sl ← sl.toNat?
+      mk (.unitary (Array.replicate (2 ^ t.length * 2 ^ t.length) 0) t) (some sl)
+  | ["c", c, t, "F", u] => do
+      let c ← parseIntList? c; let t ← parseIntList? t; let u ← arr? u
+      mk (.control u c t) none
+  | ["c", c, t, "P", sl] => do
+      let c ← parseIntList? c; let t ← parseIntList? t; let sl ← sl.toNat?
+      mk (.control (Array.replicate (2 ^ t.length * 2 ^ t.length) 0) c t) (some sl)
+  | _ => none
+
+/-- parameter table entry `k:slot:<entries>` -/
+def parseParam (s : String) : Option (Nat × Nat × Array GInt) :=
+  match s.splitOn ":" with
+  | [k, sl, u] => do
+      let k ← k.toNat?; let sl ← sl.toNat?; let u ← arr? u
+      if u.size = 2 ^ k * 2 ^ k then pure (k, sl, u) else none
+  | _ => none
+
+def paramsOf (tab : List (Nat × Nat × Array GInt)) : Params GInt :=
+  fun k s => match tab.find? fun e => e.1 == k && e.2.1 == s with
+    | some e => lookupMat e.2.2
+    | none => fun _ _ => 0
+
+def parseOpSeq (m : Nat) (s : String) : Option (List (Op m GInt)) :=
+  if s = "-" then some [] else
+    (s.splitOn "|").mapM fun st => match st.splitOn ":" with
+      | ["u", t, u] => do
+          let t ← parseIntList? t; let u ← arr? u
+          (RawOp.unitary u t).compile m
+      | _ => none
+
+def parseDesc (s : String) : Option GateDesc :=
+  match s.splitOn ":" with
+  | [nm, oid, tr, ph] => do
+      let oid ← oid.toNat?
+      pure ⟨nm, oid, tr == "1", ph == "1"⟩
+  | _ => none
+
+def qiOfG (g : GInt) : QI := QI.ofGInt g
+def qiListStr (l : List QI) : String := ";".intercalate (l.map QI.toStr)
+
+def handle (args : List String) : String :=
+  match args with
+  | ["gg", n, t, u, qc, g] => Id.run do
+      let some n := n.toNat? | return "bad-op"
+      let some t := parseIntList? t | return "bad-op"
+      let some u := arr? u | return "bad-op"
+      let some qc := arr? qc | return "bad-op"
+      let some g := arr? g | return "bad-op"
+      if qc.size ≠ 2 ^ n || g.size ≠ 2 ^ n then return "bad-op"
+      match (RawOp.unitary u t).compile n with
+      | some (.unitary U t) =>
+        let r := applyGateGrad U t (lookup qc) (lookup g)
+        return s!"{strArr (tabulate r.1)}|{strArr (tabulate r.2.1)}|{strArr (tabulateMat r.2.2)}"
+      | _ => return "error"
+  | ["cg", n, c, t, u, qc, g] => Id.run do
+      let some n := n.toNat? | return "bad-op"
+      let some c := parseIntList? c | return "bad-op"
+      let some t := parseIntList? t | return "bad-op"
+      let some u := arr? u | return "bad-op"
+      let some qc := arr? qc | return "bad-op"
+      let some g := arr? g | return "bad-op"
+      if qc.size ≠ 2 ^ n || g.size ≠ 2 ^ n then return "bad-op"
+      match (RawOp.control u c t).compile n with
+      | some (.control U cc r tn) =>
+        let res := applyControlledGrad U cc r tn (lookup qc) (lookup g)
+        return s!"{strArr (tabulate res.1)}|{strArr (tabulate res.2.1)}|{strArr (tabulateMat res.2.2)}"
+      | _ => return "error"
+  | ["sweep", n, prog, params, psi, gout] => Id.run do
+      let some n := n.toNat? | return "bad-op"
+      let some gates := (if prog = "-" then some [] else (prog.splitOn "|").mapM (parseGate n)) | return "error"
+      let some tab := (if params = "-" then some [] else (params.splitOn "|").mapM parseParam) | return "bad-op"
+      let some psi := arr? psi | return "bad-op"
+      let some gout := arr? gout | return "bad-op"
+      if psi.size ≠ 2 ^ n || gout.size ≠ 2 ^ n then return "bad-op"
+      let Θ := paramsOf tab
+      -- evaluate through flat arrays after every step (keeps the closures shallow)
+      let out : Array GInt := gates.foldl (fun a g => tabulate (n := n) (g.apply Θ (lookup a))) psi
+      let qc0 : Array GInt := out.map conj
+      let init : Array GInt × Array GInt × List (Nat × Nat × Array GInt) :=
+        (qc0, gout, tab.map fun e => (e.1, e.2.1, Array.replicate e.2.2.size 0))
+      let res := gates.foldr (fun gate acc =>
+        let G : Params GInt := paramsOf acc.2.2
+        let r := gate.back Θ (lookup (n := n) acc.1, lookup (n := n) acc.2.1, G)
+        (tabulate r.1, tabulate r.2.1, acc.2.2.map fun e => (e.1, e.2.1, tabulateMat (k := e.1) (r.2.2 e.1 e.2.1)))) init
+      let grads := "/".intercalate (res.2.2.map fun e => strArr e.2.2)
+      return s!"{strArr out}|{strArr res.2.1}|{grads}"
+  | ["slots", descs] => Id.run do
+      let some gs := (descs.splitOn "|").mapM parseDesc | return "bad-op"
+      return "|".intercalate ((List.range gs.length).map fun i => match slotOf gs i with
+        | some (nm, r) => s!"{nm}:{r}"
+        | none => "-")
+  | ["kl", l, m, seqs, q, gs] => Id.run do
+      let some l := l.toNat? | return "bad-op"
+      let some m := m.toNat? | return "bad-op"
+      let some seqs := (seqs.splitOn "/").mapM (parseOpSeq m) | return "error"
+      let some q := arr? q | return "bad-op"
+      let some gs := (gs.splitOn "/").mapM arr? | return "bad-op"
+      if q.size ≠ l * 2 ^ m || gs.length ≠ seqs.length || gs.any (·.size ≠ l * l) then return "bad-op"
+      let row (i : Nat) : Vec m GInt := lookup (q.extract (i * 2 ^ m) ((i + 1) * 2 ^ m))
+      let fwd := "/".intercalate (seqs.map fun ops =>
+        gintListStr ((List.range l).flatMap fun i => (List.range l).map fun j => klForward l ops row i j))
+      let zero : Array GInt := Array.replicate (l * 2 ^ m) 0
+      let grad := (seqs.zip gs).foldl (fun acc sg =>
+        let G : Nat → Nat → GInt := fun i j => sg.2.getD (i * l + j) 0
+        let add : Array GInt := ((List.range l).flatMap fun i =>
+          (tabulate (klBackward l sg.1 (dagRev sg.1) row G i)).toList).toArray
+        (acc.zip add).map fun p => p.1 + p.2) zero
+      return s!"{fwd}|{strArr grad}"
+  | ["sylv", m, r, s, v, g] => Id.run do
+      let some m := m.toNat? | return "bad-op"
+      let some r := r.toNat? | return "bad-op"
+      let some s := parseIntList? s | return "bad-op"
+      let some v := arr? v | return "bad-op"
+      let some g := arr? g | return "bad-op"
+      if s.length ≠ m || v.size ≠ m * m || g.size ≠ m * m then return "bad-op"
+      let sA := s.toArray
+      if (List.range m).any (fun a => (List.range m).any fun b => a ≠ b && sA.getD a 0 == 0 && sA.getD b 0 == 0) then
+        return "nan"
+      let sf : Nat → QI := fun a => ⟨(sA.getD a 0 : Int), 0⟩
+      let V : Nat → Nat → QI := fun i j => qiOfG (v.getD (i * m + j) 0)
+      let G : Nat → Nat → QI := fun i j => qiOfG (g.getD (i * m + j) 0)
+      -- tabulate after every pass
+      let step (sG : (Nat → QI) × Array QI) : (Nat → QI) × Array QI :=
+        let Gf : Nat → Nat → QI := fun i j => sG.2.getD (i * m + j) 0
+        let X := sylvStep m V sG.1 Gf
+        (fun a => sG.1 a * sG.1 a, ((List.range m).flatMap fun i => (List.range m).map fun j => X i j).toArray)
+      let init : (Nat → QI) × Array QI := (sf, ((List.range m).flatMap fun i => (List.range m).map fun j => G i j).toArray)
+      let res := (List.range r).foldl (fun acc _ => step acc) init
+      return qiListStr res.2.toList
+  | ["flat", shapes, theta] => Id.run do
+      -- shapes: `name:len|...` in registration order; theta: integers
+      let some sh := (shapes.splitOn "|").mapM (fun s => match s.splitOn ":" with
+        | [nm, len] => do let len ← len.toNat?; pure (nm, len)
+        | _ => none) | return "bad-op"
+      let some theta := parseIntList? theta | return "bad-op"
+      let sorted := sortByName sh
+      if theta.length ≠ (sorted.map (·.2)).sum then return "bad-op"
+      let ps := unflatten sorted theta
+      let back := flatten ps
+      return "|".intercalate (ps.map fun p => s!"{p.1}={intListStr p.2}") ++ s!" {intListStr back}"
+  | _ => "bad-op"
 
 end Numqi.Driver.C04
